@@ -8,7 +8,7 @@ BASE = "cd /repo && /venv/bin/python -m pytest -ra -q -p no:cacheprovider --time
 CHECKS = {
  "C10": ("HX", "model_checking",
          "explicit-state BFS over operation histories of a real Stewart platform (pickle snapshots, canonical state hashing, from-scratch replay) for subsets of the four validation switches, with coherence and every enabled constraint recomputed independently after every call",
-         "36-operation alphabet {IK to 12 in/out-of-workspace and edge targets (one crossing the deflection limit under a re-spin), FK x4 length vectors x both solvers, FK at an explicit base x2, reverse FK, move x2, spinCustom, spinCustom+validate, validate x2, inverseJacobian, staticForces, carryMassCalc, scripted randomPos} on 2 geometries (one on a rotated, offset base) x 6 (quick) / 16 (thorough) switch subsets, fresh and re-spun starts, depth 2 (quick) / 3 (thorough): every call returns, joints/lengths/relative transform coherent to 1e-9, valid => all enabled constraints hold, pure queries leave both plates unchanged, un-invert preserves leg lengths.",
+         "36-operation alphabet {IK to 12 in/out-of-workspace and edge targets (one crossing the deflection limit under a re-spin), FK x4 length vectors x both solvers, FK at an explicit base x2, reverse FK, move x2, spinCustom, spinCustom+validate, validate x2, inverseJacobian, staticForces, carryMassCalc, scripted randomPos} on 3 geometries (newSP at the origin, newSP on a rotated offset base, makeSP with thick plates; moves include a base tilted 69 degrees) x 6 (quick) / 16 (thorough) switch subsets, fresh and re-spun starts, depth 2 (quick) / 3 (thorough): every call returns, joints/lengths/relative transform coherent to 1e-9, valid => all enabled constraints hold, pure queries leave both plates unchanged, un-invert preserves leg lengths.",
          "Depth <= 3 (not the 25 of the quantifier text); FK answers and corrective actions are environment answers (checked, not predicted); FK accuracy itself is C09's. Allowance for rotation angles in (0,1e-6] (the exponential's cut-off).", "DESIGN 4/C10"),
  "C17": ("LX", "exploration",
          "bounded-exhaustive enumeration of all 47 @jit kernels x input lattices x 5 array layouts and of every public tm/Arm/SP entry point for every link/joint index, executed in three fresh processes (compiled, NUMBA_BOUNDSCHECK=1, interpreter) whose per-case digests are compared",
@@ -16,31 +16,31 @@ CHECKS = {
          "Negative indices wrap legally in both checked modes; layouts the explicit signatures reject are counted, not failed; iterative solver entry points are value-compared only between the two compiled modes.", "DESIGN 4/C17"),
  "C02": ("LX", "exploration",
          "bounded-exhaustive differential enumeration: for each of the 47 shared functions the complete (quick: deterministically strided) product of argument palettes is run through the port and through the vendored reference library, results compared by shape and value",
-         "Rigid-body algebra on the C01 lattices (incl. non-members near the membership thresholds), all chains J^n for n <= 3 (n = 4 complete in thorough) and windows to 7 joints for FK/Jacobians/IK/dynamics, time scalings, joint/screw/Cartesian trajectories N = 2..12, dynamics trajectories and simulated control; 'never raises where the reference returns'; the port's previous result must survive its next call; IK: success meets tolerances and both solvers agree where sigma_min >= 0.05.",
+         "Rigid-body algebra on the C01 lattices (incl. non-members near the membership thresholds), all chains J^n for n <= 3 (n = 4 complete in thorough) and windows to 7 joints for FK/Jacobians/IK/dynamics, time scalings, joint/screw/Cartesian trajectories N = 2..12, dynamics trajectories and simulated control; 'never raises where the reference returns'; the port's previous result must survive its next call; one set of argument buffers per function is primed, overwritten in place and re-used (memo keyed on argument identity); IK: success meets tolerances and both solvers agree where sigma_min >= 0.05.",
          "float64 C-contiguous arguments only (layouts are C17's); cases where the reference itself returns non-finite values or sits on the 1e-6 cut-off tie are counted and skipped; quick tier thinned with strides coprime to all palette sizes (listed in the rule).", "DESIGN 4/C02"),
  "C09": ("LX", "exploration",
          "bounded-exhaustive enumeration over a platform-geometry family x bases x re-spins x the complete 3^6 relative-pose grid, against point-to-point distances computed from plate-fixed coordinates read once at the neutral pose; FK round trip on a fixed sub-lattice with a committed known-finding case list",
-         "IK lengths equal joint-to-joint distances (1e-9), rigid-motion invariance, re-spin clause (at neutral and non-neutral poses, twice in a row), FK of the lengths (both solver paths) recovers pose and lengths to 1e-3 of the neutral height for every in-workspace pose; quick: 7 geometries at bases {identity, generic, seed-generic, 63-degree tilt}, thorough: all 432 + seed geometry.",
+         "IK lengths equal joint-to-joint distances (1e-9), rigid-motion invariance, re-spin clause (at neutral and non-neutral poses, twice in a row), FK of the lengths (both solver paths) recovers pose and lengths to 1e-3 of the neutral height for every in-workspace pose; histories 'FK, spinCustom, FK' and 'IK, IK' (the earlier result must survive); quick: 7 geometries at bases {identity, generic, seed-generic, 63-degree tilt}, thorough: all 432 + seed geometry.",
          "FK failures are matched against known_findings/c09_fk_cases.txt (KF2: explicit case ids with a marginal band, one structural class for fsolve started from a zero rotation vector); any unlisted failure is a violation. Time caps are reported with exhaustive:false.", "DESIGN 4/C09"),
  "C11": ("LX", "exploration",
          "bounded-exhaustive enumeration over geometries x bases x the 3^6 pose grid x the complete twist/wrench bases, against Richardson differences of the IK lengths and independent statics",
-         "inverseJacobian columns equal Richardson central differences of leg lengths along spatial twists of the top plate (1e-6), static equilibrium, summed actuator wrenches, inverse statics, the body-frame pair, and the mass-carrying variant with plate and shaft weights at their centres of gravity, at identity, a generic, a seed-generic and a far base (cond(J^-1) 1e3..1e4 there), on every in-workspace pose with cond <= 1e4.",
+         "inverseJacobian columns equal Richardson central differences of leg lengths along spatial twists of the top plate (1e-6), static equilibrium, summed actuator wrenches, inverse statics, the body-frame pair, and the mass-carrying variant with plate and shaft weights at their centres of gravity, at identity, a generic, a seed-generic and a far base (cond(J^-1) 1e3..1e4 there), on every in-workspace pose with cond <= 1e4; the same Wrench object handed over twice, and the history 'statics, inverseJacobian, spinCustom, same poses, statics'.",
          "Finite geometry/pose lattice; conventions (moment-first wrenches, Ad^T frame change) are themselves verified by a dedicated part; linear maps decided on complete bases.", "DESIGN 4/C11"),
  "C16": ("CX", "model_checking",
          "stateless choice-sequence exploration (prefix replay, default answer 0, branching at every later environment question, deviation-bounded) of the real RRT* growth loop with the sampler and the random source scripted; tree invariants and an independent brute-force nearest-neighbour replay of the insertion order on every complete execution",
-         "All sample sequences over a 10-pose menu for iteration budgets 1-3 (quick) / 1-4 (thorough) with a draw horizon, deviation-bounded runs to budget 12, histories that grow the same planner again with a smaller budget and query again, and the default findPath path with random.uniform scripted per coordinate, crossed with 4 obstruction layouts x 2 distance modes x 3 neighbour limits: rootedness, acyclic parent links, cost bookkeeping, edge freedom, acceptance range, choice of parent, node count, returned path.",
+         "All sample sequences over a 10-pose menu for iteration budgets 1-3 (quick) / 1-4 (thorough) with a draw horizon, deviation-bounded runs to budget 12, histories that grow the same planner again with a smaller budget and query again (also with the distance mode switched in between), and the default findPath path with random.uniform scripted per coordinate, crossed with 4 obstruction layouts x 2 distance modes x 3 neighbour limits: rootedness, acyclic parent links, cost bookkeeping, edge freedom, acceptance range, choice of parent, node count, returned path.",
          "Budgets <= 4 exhaustively (<= 12 near the default answer); executions that exhaust the draw horizon are counted, not judged; the supplied collision detector itself is C15's subject. A time cap (reported, exhaustive:false) bounds the run on a loaded machine.", "DESIGN 4/C16, 3.3"),
  "C08": ("LX", "exploration",
          "bounded-exhaustive enumeration: all revolute chains of 1..3 joints over a 6-joint palette x link-frame and inertia schemes x joint-state lattice, windows of 4..7 joints, and arms through the Arm-level API, against an independent product-of-exponentials dynamics oracle",
-         "All 6^n joint sequences for n <= 3 x 4 link-frame schemes x 3 inertia schemes x {0,0.3,-1.2,pi/2}^n states, cyclic windows for n = 4..7, three/four arms: M symmetric positive definite and equal to sum J^T G J, gravity = gradient of potential, passivity and the Lagrange form of the velocity-product term (Richardson differences), term-by-term torque decomposition, forward/inverse round trips, energy drift under RK4 with step refinement, agreement of every Arm-level implementation with the port, and a sequence that overwrites one set of argument buffers in place across states.",
+         "All 6^n joint sequences for n <= 3 x 4 link-frame schemes x 3 inertia schemes x {0,0.3,-1.2,pi/2}^n states, cyclic windows for n = 4..7, three/four arms: M symmetric positive definite and equal to sum J^T G J, gravity = gradient of potential, passivity and the Lagrange form of the velocity-product term (Richardson differences), term-by-term torque decomposition, forward/inverse round trips, energy drift under RK4 with step refinement, agreement of every Arm-level implementation with the port, a sequence that overwrites one set of argument buffers in place across states, the history 'query everything, replace the inertias through the public setter, query again', and a byte comparison of every argument after every call.",
          "Finite lattices (quick tier thinned deterministically as stated in the rule); revolute joints; mass pattern per inertia scheme fixed. Oracle identities validated against the vendored reference in the self-tests.", "DESIGN 4/C08"),
  "C13": ("LX", "exploration",
          "bounded-exhaustive enumeration over generated programs: the complete product of per-joint URDF variants for 1 and 2 moving joints, scheduled families for 3..8 joints with every fixed-joint placement pattern, loaded by the real loader and compared with an independent XML->kinematics interpreter",
-         "The 5 bundled files plus 73 k (quick) / 195 k (thorough) generated single-chain URDFs: full product {origin full/no rpy/no xyz/omitted} x {axis x,z,-z,generic,omitted} x {revolute, continuous} x fixed-joint placements x world link x inertial data for n <= 2, rotating schedules for n = 3..8, half-turn spellings, continuous joints with effort/velocity-only limits; dof count, joint order and names, limits as written and FK at 5 joint vectors to 1e-6.",
+         "The 5 bundled files plus 73 k (quick) / 195 k (thorough) generated single-chain URDFs: full product {origin full/no rpy/no xyz/omitted} x {axis x,z,-z,generic,omitted} x {revolute, continuous} x fixed-joint placements x world link x inertial data for n <= 2, rotating schedules for n = 3..8, half-turn spellings, continuous joints with effort/velocity-only limits; dof count, joint order and names, limits as written and FK at 5 joint vectors to 1e-6; every file is written to the same path, the previous file is recorded and replayed as history.",
          "Strictly serial trees, revolute/continuous/fixed joints only (the property's quantifier); origin and limit values rotate through fixed palettes rather than entering the product. KF1 matched only when the deviation shows the logarithm's signature.", "DESIGN 4/C13"),
  "C14": ("HX", "exploration",
          "exhaustive enumeration of length-3 histories (build operands -> call -> one in-place mutation of the result) executed from scratch over a 306-entry table of operators/accessors/helpers x operand palettes x every mutation site, with byte/identity/extent fingerprints",
-         "Every public operator, accessor, copy constructor and in-scope helper of tm/Screw/Wrench/fsr, all 47 shared Modern Robotics functions plus extras, the Arm/SP constructors and loaders, and all default-argument objects (treated as hidden operands) are exercised with 2-3 operand palettes each; operands must be byte-identical afterwards, results must not share memory with operands, and no mutation of a result may reach an operand or a default.",
+         "Every public operator, accessor, copy constructor and in-scope helper of tm/Screw/Wrench/fsr, all 47 shared Modern Robotics functions plus extras, the Arm/SP constructors and loaders, and all default-argument objects (treated as hidden operands) are exercised with 2-3 operand palettes each; operands must be byte-identical afterwards, results must not share memory with operands, and no mutation of a result may reach an operand or a default; for operators, copies and accessors a result that IS an operand is a violation.",
          "Histories of length 3 only (one call, one mutation); snapshots are never used because they would sever the sharing under test. Exclusions exactly as the property lists them.", "DESIGN 4/C14"),
  "C19": ("HX", "model_checking",
          "explicit-state BFS over router operation histories on the real Comms hub with in-memory endpoint doubles and a scripted fake socket, against a bag-valued reference model; plus TLC enumeration of a TLA+ model of the hub whose every edge is replayed against the implementation",
@@ -48,19 +48,19 @@ CHECKS = {
          "Bounded depth and hub size (<= 3 endpoints, 2 sinks, 1 source); sockets are scripted doubles; delivery order within a bag is not judged. Without tlc on PATH the check falls back to the direct exploration and says so.", "DESIGN 4/C19, 3.4"),
  "C07": ("LX", "exploration",
          "bounded-exhaustive enumeration of goal x start x tolerance-setting x solver-path lattices on arms in four structural states, plus complete enumeration of restart-vector sequences (scripted random source); errors recomputed independently",
-         "Per arm and state: goals from in-limit joint vectors (generic, 0.15 rad from a limit, on a limit), starts (exact, +-0.02 rad on every joint, far, zeros, current, a full turn outside the limits), three tolerance settings with position != orientation tolerance, both solver paths; tolerance-boundary goals (the only inputs that expose a tolerance swap); the same boundary goals through one scripted restart limited to its entry test; unreachable goals; all 9 restart-vector sequences of length 2 over a 3-vector menu. Success => recomputed errors within the matching tolerances, inside limits, state = solution; failure => coherent state; local convergence on the stated sub-domain.",
+         "Per arm and state: goals from in-limit joint vectors (generic, 0.15 rad from a limit, on a limit), starts (exact, +-0.02 rad on every joint, far, zeros, current, a full turn outside the limits), three tolerance settings with position != orientation tolerance, both solver paths; tolerance-boundary goals (the only inputs that expose a tolerance swap); the same boundary goals through one scripted restart limited to its entry test; unreachable goals; all 9 restart-vector sequences of length 2 over a 3-vector menu; one generated chain whose joint ranges exclude 0. Success => recomputed errors within the matching tolerances, inside limits, state = solution; failure => coherent state; local convergence on the stated sub-domain.",
          "Finite lattices; the solver's joint vectors are environment answers; restarts fully scripted. Free solver on chains with prismatic joints excluded for unreachable goals (joint values leave the property's [-2pi,2pi] range).", "DESIGN 4/C07"),
  "C12": ("LX", "exploration",
          "bounded-exhaustive enumeration: all ordered frame triples x complete 6-vector basis x {Screw, Wrench} x every operand form on both sides of every operator, against independent adjoint formulas",
-         "729 (quick) / 2744 (thorough) frame triples (palette includes near-duplicate frames) x basis+generic vectors for the change-of-frame group action, pairing invariance, point-force moments, cross-frame sums/differences, and the vector-space laws over 19 operand forms (Python/NumPy scalars, flat and column arrays of float and int dtype, objects) reaching every isinstance branch and fall-through of the overloads.",
+         "729 (quick) / 2744 (thorough) frame triples (palette includes near-duplicate frames) x basis+generic vectors for the change-of-frame group action, pairing invariance, point-force moments, cross-frame sums/differences, and the vector-space laws over 19 operand forms (Python/NumPy scalars, flat and column arrays of float and int dtype, objects) reaching every isinstance branch and fall-through of the overloads; part 'shared': two objects on one frame object, the target frame object moved in place between the two changes.",
          "Finite frame palette kept >= 1e-3 away from half-turn relative rotations (KF1 territory) and from the 1e-6 cut-off; linear maps decided on complete bases.", "DESIGN 4/C12"),
  "C18": ("LX", "exploration",
          "bounded-exhaustive enumeration: all ordered pose pairs/triples of a palette off the origin, all step sizes/counts, every sphere point count, an angle lattice in four operand forms, against independent NumPy relations",
-         "11 poses (|p| up to 10, angles up to pi-1e-3, none through the world origin) -> all pairs/triples for mirror, midpoints, lookAt, planes, metric axioms, gap closing, straight paths, twists; every point count 1..2000 (thorough) for both sphere samplers; 318 angles as scalars/arrays/6-vectors/tm for angle wrapping; chain and numerical Jacobians against analytic ones.",
+         "11 poses (|p| up to 10, angles up to pi-1e-3, none through the world origin) -> all pairs/triples for mirror, midpoints, lookAt, planes, metric axioms, gap closing, straight paths, twists; every point count 1..2000 (thorough) for both sphere samplers; 318 angles as scalars/arrays/6-vectors/tm for angle wrapping; chain and numerical Jacobians against analytic ones; frame objects re-posed in place between two uses, pose pairs differing by a pure translation, pairs 4e-7 apart.",
          "Finite palettes; closeArcGap direction claimed only for un-rotated origins (the repository's own test pins the other behaviour); helpers outside the statement's list are not checked.", "DESIGN 4/C18"),
  "C06": ("LX", "exploration",
          "bounded-exhaustive enumeration: arms x all structural histories (move / tool change / restore, length <= 2) x joint-vector palette x complete rate and wrench bases; Jacobians compared with Richardson differences of the library's FK and with an independent product-of-exponentials reference",
-         "At each of 43 structurally distinct states per arm (histories of length <= 2 over {move x2, tool change x3 incl. a turn-only one, restore}) and 4-5 joint vectors: space Jacobian = derivative of FK (Richardson, steps 1e-4/2e-4, 1e-6 relative), body / link (every index) / tool-aligned / numerical variants after the change of frame, velocity = J qd, statics = J^T F with power balance on the complete bases, inverse statics where sigma_min >= 0.05, link-weight moments on arms with inertial data; plus every ordered pair of queries on ONE arm object with shared argument objects (query-after-query interference, argument mutation).",
+         "At each of 43 structurally distinct states per arm (histories of length <= 2 over {move x2, tool change x3 incl. a turn-only one, restore}) and 4-5 joint vectors: space Jacobian = derivative of FK (Richardson, steps 1e-4/2e-4, 1e-6 relative), body / link (every index) / tool-aligned / numerical variants after the change of frame, velocity = J qd, statics = J^T F with power balance on the complete bases, inverse statics where sigma_min >= 0.05, link-weight moments on arms with inertial data; plus every ordered pair of queries on ONE arm object with shared argument objects (query-after-query interference, argument mutation), also with the shared joint vector advanced in place between the two queries; link weights re-evaluated with one link made massless.",
          "Finite palettes of joint vectors and histories of length <= 2; linear maps are decided on complete bases. Link masses/centres are taken from the loaded arm as data.", "DESIGN 4/C06"),
  "C05": ("HX", "model_checking",
          "explicit-state BFS over operation histories of real Arm objects paired with a product-of-exponentials reference model; solver answers are environment answers; from-scratch replay of every state's history",
@@ -76,7 +76,7 @@ CHECKS = {
          "Finite palettes; values between lattice points are not covered. True exp/log from oracles/se3.py (self-tested against scipy expm). KF1 (log near pi) matched only when the port still equals the vendored reference.", "DESIGN 4/C01"),
  "C04": ("LX", "exploration",
          "bounded-exhaustive enumeration: every palette pose in every constructor form, all ordered triples of a pose sub-palette, against independent matrices",
-         "~190 poses (9 angles incl. 1e-7, 1e-5, 1e-3, pi-1e-3) x 17 constructor forms (incl. the rpy variants of the nested pair, 3-array and 6-column) and all 13 824 (quick) / 216 000 (thorough) ordered pose triples are executed on the real tm class and frame-conversion helpers; results compared with independently built 4x4 matrices.",
+         "~190 poses (9 angles incl. 1e-7, 1e-5, 1e-3, pi-1e-3) x 17 constructor forms (incl. the rpy variants of the nested pair, 3-array and 6-column) and all 13 824 (quick) / 216 000 (thorough) ordered pose triples are executed on the real tm class and frame-conversion helpers; results compared with independently built 4x4 matrices; constructor forms are re-read after the caller refilled its array; part 'stale': 12 poses x 10 writers x 14 queries as query-write-query histories on one object.",
          "Finite palettes; rpy read as Rx*Ry*Rz as the property says; KF1 band (composed rotation within 3e-5 of pi) matched as known finding.", "DESIGN 4/C04"),
  "C15": ("LX", "exploration",
          "exhaustive enumeration of all lattice segment/box pairs through the real obstruction test against an integer-exact slab-clipping decision procedure",
@@ -84,7 +84,7 @@ CHECKS = {
          "Exactness argument: every intermediate is a dyadic rational on the integer lattice. Oracle validated against fractions.Fraction in the self-tests. Float inputs off the (affine) lattice are not covered.", "DESIGN 4/C15"),
  "C03": ("HX", "model_checking",
          "explicit-state BFS over operation histories of the real tm object, depth-bounded, with from-scratch replay of every state's history",
-         "Every history of length <= 2 (quick) / <= 3 (thorough) over a ~880-transition alphabet of constructors, setters, slice/element assignments (incl. from-the-end indices and open-ended slices), quaternion updates and operators is executed on the real class; the coherence invariant is evaluated in every reached state and on every returned object.",
+         "Every history of length <= 2 (quick) / <= 3 (thorough) over a ~880-transition alphabet of constructors, setters, slice/element assignments (incl. from-the-end indices and open-ended slices), quaternion updates and operators is executed on the real class (incl. 'construct from an array, then the caller refills that array' and 'construct twice from one array, write to one twin'); the coherence invariant is evaluated in every reached state and on every returned object.",
          "Bounded depth and finite value palette (the one the property names); states merged at 1e-9; independent Rodrigues oracle; KF1 band matched as a known finding.", "DESIGN 4/C03"),
 }
 ALL = ["C%02d" % i for i in range(1, 21)]
